@@ -96,7 +96,7 @@ def gen_args(rng, files, dirs):
             choice = rng.choice((dirs or ["."]) + ["."])
             args.append(choice + rng.choice(["", "", "/", ""]) if choice != "." else rng.choice([".", "./"]))
         elif roll < 0.85:
-            args.append(rng.choice(["*.md", "*", "docs/*", "d*/*.md", "?.md", "*.txt", "**", "./*.md", "docs/*/*", "*.m?", "[ab].*", "q?.md", "s*r.md", "*/", "x.md/*", "docs/sub/*.md", ".*"]))
+            args.append(rng.choice(["*.md", "*", "docs/*", "d*/*.md", "?.md", "*.txt", "**", "./*.md", "docs/*/*", "*.m?", "[ab].*", "q?.md", "s*r.md", "*/", "x.md/*", "docs/sub/*.md", ".*", "**/*.md", "docs/**/*.md", "**/sub/*", "./**/*.md", "**/**"]))
         elif roll < 0.93:
             args.append(rng.choice(["nosuch.md", "nosuch", "docs/nosuch.md", "nosuch/"]))
         else:
